@@ -550,6 +550,13 @@ fn write_string_list<'a>(
 
     for string in strings {
         let encoded = Encoded::encode(&string, DEFAULT_ENCODING).map_err(|e| emitter.emit(e))?;
+        // (the strings of a list are NUL-terminated; one that contains a NUL would read back as two)
+        if encoded.0.contains(&0) {
+            return Err(emitter.emit(error!(
+                message("string in a list of names cannot contain a NUL character"),
+                primary(string, "contains NUL"),
+            )));
+        }
         writer.write_cstring(&encoded, 1)?;
 
         num_bytes_written += encoded.len() + 1;
